@@ -70,16 +70,23 @@ def gen_cases(tier, seed):
     for i, (spec, refit, cf) in enumerate(PROGRAMS):
         slow = fmenu.is_slow(spec)
         core = i in (0, 1, 4, 5, 7, 9, 12, 14)
-        depth = (3 if core else 2) if tier == "quick" else (3 if slow else 4)
-        for a in ((10,) if tier == "quick" or slow else (9, 10, 12)):
-            for start in ((0, 5) if not slow or tier != "quick" else (0,)):
-                # shard the first-level operations so that one program spreads over workers
-                menu = "q" if tier == "quick" else "t"
-                if tier == "quick" and start != (0, 5)[(i + seed) % 2] and not slow:
-                    continue
-                for first in range(len(_ops(menu))):
-                    yield dict(prog=i, a=a, start=start, depth=depth, first=first,
-                               fam=seed % 2, menu=menu)
+        if tier == "quick":
+            plans = [("q", 3 if core else 2, (10,), ((0, 5)[(i + seed) % 2],) if not slow else (0,))]
+        else:
+            # full menu to depth 3 (statsmodels programs: depth 2 on the full menu, 3 on the
+            # small one); three programs additionally to depth 4 on the small menu
+            plans = [("t", 2 if slow else 3, (10,) if slow else (9, 10, 12), (0, 5))]
+            if slow:
+                plans.append(("q", 3, (10,), (0,)))
+            if i in (0, 5, 9):
+                plans.append(("q", 4, (10,), (0,)))
+        for menu, depth, As, starts in plans:
+            for a in As:
+                for start in starts:
+                    # shard the first-level operations so that one program spreads over workers
+                    for first in range(len(_ops(menu))):
+                        yield dict(prog=i, a=a, start=start, depth=depth, first=first,
+                                   fam=seed % 2, menu=menu)
 
 
 def _series(n, fam, start):
